@@ -123,11 +123,17 @@ class Module:
             self.tree = ast.parse(self.source, filename=path)
         except SyntaxError as e:
             raise AnalysisError('cannot parse %s: %s' % (relpath, e))
+        from . import norm as _norm
+        self.tree, self.norm_log = _norm.normalise(self.tree, name)
         self.functions = {}
         self.classes = {}
         self.constants = {}      # NAME -> python value (literal-evaluable module constants)
         self.const_nodes = {}
         self.imports = {}        # local name -> dotted target ('seismic_zfp.utils.pad', 'numpy', 'segyio.field.Field')
+        self.index()
+
+    def index(self):
+        self.functions, self.classes = {}, {}
         for n in ast.walk(self.tree):
             for c in ast.iter_child_nodes(n):
                 c._parent = n
@@ -201,6 +207,11 @@ class Program:
                 self.modules[name] = Module(name, os.path.join(pkgdir, fn), PKG + '/' + fn)
         if not self.modules:
             raise AnalysisError('no modules under %s' % pkgdir)
+        from . import norm as _norm
+        if _norm.enabled():
+            _norm.prune([m.tree for m in self.modules.values()])
+            for m in self.modules.values():
+                m.index()
         self.classes = {}
         self.functions = {}   # qualname -> FuncInfo
         for m in self.modules.values():
